@@ -10,13 +10,17 @@ SPEC = {
         "a scan is abstracted to a list of private work items folded with an arbitrary function, with poll points that compare the shared counter / epoch with the scanner's own deadlines; the theorems hold for every such function and every program",
         "Rules are immutable after build and every scanner owns its store and memory (lib/src/compiler/mod.rs, scanner/context.rs): not modelled, covered by the differential runs",
         "real thread schedules are sampled by the operating system (2..16 threads in a fresh child process per session), not steered; the Coq model is run on the recorded history under a pseudo-random schedule",
-        "a scanner that has a timeout may legitimately return Timeout at any poll once its own deadline (whole seconds, heartbeat granularity) has passed; such results are accepted, a Timeout without a deadline of its own is a violation",
+        "a scanner that has a timeout may legitimately return Timeout at any poll once its own deadline (whole seconds, heartbeat granularity) has passed; such results are accepted; a Timeout without a deadline of its own, or with a deadline of more seconds than heartbeat periods can have elapsed in the session (wall seconds + 1 + simulated ticks), is a violation",
     ],
     "trusted_base": ["Gen/ConcGen.v: DEFAULT_SCAN_TIMEOUT, the timeout_secs formula, the poll comparison and the heartbeat period, regenerated from lib/src/scanner/context.rs; the translator also checks the shapes of the deadline assignment, the heartbeat loop, INIT_HEARTBEAT/ENGINE statics",
+                     "Gen/ConcGen.v shared_writes: every call site of increment_epoch / write to HEARTBEAT_COUNTER / set_epoch_deadline in lib/src (hook files verif_*.rs and the runtime abstraction lib/src/wasm/runtime/ excluded) with target and place; Props/C13.v proves clock_single_writer = true from it and instantiates the model's scanner-writes-the-engine-clock switch with its negation",
+                     "hook Scanner::verif_timeout_at_poll / verif_timeout_fired (cfg yara_x_verif, builder-c04's tick hook) for the deterministic session",
                      "thread-local module caches: only those of the hash module are exercised (two generated rules), and scanners never migrate between threads"],
 }
 
-RULE = ("sessions in fresh child processes: 2..16 threads x 5-18 seeded operations each (Scanner::new / drop, scan of one of 6 generated buffers with a scanner on the shared Rules "
+RULE = ("first, a deterministic session through the tick hook (scanner::verif_state): scanner A is made to time out in its pattern search 400 times "
+        "(its own 1 s deadline passes at its first ac_search_loop poll) while scanner B on another thread (timeout 700 s) evaluates a ~2 s condition loop: B must complete with its solo result, "
+        "400 simulated + a few real ticks cannot reach its deadline; then sessions in fresh child processes: 2..16 threads x 5-18 seeded operations each (Scanner::new / drop, scan of one of 6 generated buffers with a scanner on the shared Rules "
         "with no timeout / 1 s / 3 s / 1000 s, a scan of a rule that never finishes with a 1-2 s timeout, Compiler::build of one of 3 source variants followed by a scan, "
         "Rules::deserialize_from followed by a scan); rules: 12 templates (text/regexp/hex/xor/wide/nocase patterns, loops, filesize, private, hash module); half of the sessions are cold: "
         "the first use of the process-wide engine (deserialize/build in all threads behind a barrier) and of the heartbeat thread (first timeout scans racing) happens in the concurrent phase "
